@@ -3,7 +3,7 @@ from __future__ import annotations
 
 import ast
 
-from ..astutil import call_name, calls_in, dotted, names_loaded, own_nodes, unparse, kwarg
+from ..astutil import call_name, calls_in, dotted, names_loaded, own_nodes, unparse, kwarg, bind_call
 from ..dataflow import value_sources, reaching, PARAM
 from ..model import AnalysisError, Program, norm_key
 from ..report import Checker
@@ -114,12 +114,14 @@ def run(ck: Checker, prog: Program, tier: str):
     check("C19.R2a", ok0 and ps == {p_proc}, c_proc, "process(preprocess(...), processing_settings)",
           f"process() receives preprocessed-records={ok0}, settings derived from {sorted(ps)} (expected {p_proc})")
     # write(result of process, name)
-    a0 = c_write.args[0] if c_write.args else kwarg(c_write, "hvsr")
+    bound_w = bind_call(c_write, prog.func("object_io.write_hvsr_object_to_file").params)
+    a0 = bound_w.get("hvsr")
     ok0 = a0 is not None and flows_from_call(a0, c_proc)
     check("C19.R2a", ok0, c_write, "write(process(...), ...)",
           "the object written is not the result of process() for this task")
+    bound = bound_w
     for kwname in ("distribution_mc", "distribution_fn"):
-        v = kwarg(c_write, kwname)
+        v = bound.get(kwname)
         if v is not None:
             good = isinstance(v, ast.Subscript) and isinstance(v.value, ast.Name) and v.value.id == p_opt \
                 and isinstance(v.slice, ast.Constant) and v.slice.value == kwname
@@ -128,7 +130,7 @@ def run(ck: Checker, prog: Program, tier: str):
 
     # ---------------------------------------------------------------- R2b output names
     outs = []
-    fn_arg = c_write.args[1] if len(c_write.args) > 1 else kwarg(c_write, "fname")
+    fn_arg = bound_w.get("fname")
     if fn_arg is not None:
         outs.append(("csv", fn_arg, c_write))
     for c in calls_in(w.node, "savefig"):
